@@ -1,6 +1,439 @@
+"""C01 flow rules: R3 (fresh objects stay rooted until published), R3n (native results), R5 (popped
+operands are not live across a collection)."""
+from facts import origins, callee_name, op_place, op_const, proj_names, Broken
+import c01
+
+HANDLE_TOKENS = {'@as_gc', '@clone', '@into', '@from', '@as_root'}
+
+
+def block_reads(f, bi):
+    """locals read (as operands / borrowed) in block bi: (in statements, in terminator)"""
+    b = f.blocks[bi]
+    sr = set()
+    for s in b['s']:
+        r = s.get('r')
+        if not r:
+            continue
+        sr |= rvalue_reads(r)
+        # stores through a projected place read the base local
+    t = b['t']
+    tr = set()
+    if t['t'] == 'call':
+        for a in t['args']:
+            pl = op_place(a)
+            if pl is not None:
+                tr.add(pl['l'])
+        if 'ind' in t['f']:
+            pl = op_place(t['f']['ind'])
+            if pl is not None:
+                tr.add(pl['l'])
+    elif t['t'] == 'switch':
+        pl = op_place(t['d'])
+        if pl is not None:
+            tr.add(pl['l'])
+    elif t['t'] == 'assert':
+        pl = op_place(t['c'])
+        if pl is not None:
+            tr.add(pl['l'])
+    return sr, tr
+
+
+def rvalue_reads(r):
+    out = set()
+    for k in ('o', 'a', 'b'):
+        if k in r and isinstance(r[k], dict):
+            pl = op_place(r[k])
+            if pl is not None:
+                out.add(pl['l'])
+    if 'p' in r and isinstance(r['p'], dict) and 'l' in r['p']:
+        out.add(r['p']['l'])
+    for o in r.get('ops', []):
+        pl = op_place(o)
+        if pl is not None:
+            out.add(pl['l'])
+    return out
+
+
+def is_root_ty(c, tid):
+    t = c.ty(tid)
+    return t['k'] == 'adt' and t['n'] in (c01.ROOT, c01.UROOT)
+
+
+def unrooted_managed(c, tid):
+    """type holds a Gc/Value that is not wrapped in a Root"""
+    return c01.contains_unrooted(c, tid, set())
+
+
 def r3(rep, w):
-    pass
+    c = w.yarel
+    mg = c01.may_gc(w)
+    exc = {e['key']: e for e in c01.table('c01_r3_ok.json')}
+    r = rep.rule('R3', 'a fresh object is not left without a root across a may-collect call while an unrooted handle '
+                 'to it is still used', floor=60)
+    used = set()
+    for f in sorted(w.fns.values(), key=lambda x: x.path):
+        cr = f.crate
+        allocs = []
+        for bi, t in f.calls():
+            d = t['dst']
+            if d.get('p'):
+                continue
+            if not is_root_ty(cr, f.local_ty(d['l'])):
+                continue
+            name = callee_name(t)
+            if name is None:
+                continue
+            if name in mg or name in ('yarel::memory::Root::<T>::new', 'yarel::memory::UniqueRoot::<T>::new'):
+                allocs.append((bi, d['l'], name))
+        if not allocs:
+            continue
+        org = origins(f)
+        reads = {bi: block_reads(f, bi) for bi in f.normal_blocks()}
+        for (ab, rl, aname) in allocs:
+            root_key = ('call', ab, aname)
+            derived = set()
+            for l, paths in org.items():
+                if l == rl:
+                    continue
+                for q in paths:
+                    if q[0] == root_key and all(tok in HANDLE_TOKENS for tok in q[1:]):
+                        if unrooted_managed(cr, f.local_ty(l)):
+                            derived.add(l)
+            key = '%s / %s' % (f.path, f.local_name(rl) if f.locals[rl].get('n') else 'temporary of ' + aname.rsplit('::', 1)[-1])
+            named = sorted(f.locals[l]['n'] for l in derived if f.locals[l].get('n'))
+            if named and not f.locals[rl].get('n'):
+                key += ' -> ' + ','.join(named)
+            if not derived:
+                r.ok(key + ' (no unrooted handle derived)', sample=False)
+                continue
+            # where is the root dropped (whole local)?
+            drops = [bi for bi in f.normal_blocks()
+                     if f.blocks[bi]['t']['t'] == 'drop' and f.blocks[bi]['t']['p']['l'] == rl and not f.blocks[bi]['t']['p'].get('p')]
+            hit = None
+            for b1 in drops:
+                # optimistic: any publishing use of a derived handle (or move of the root) that can precede the drop
+                before = {b for b in f.normal_blocks() if b1 in f.reachable_blocks(b)} | {b1}
+                if any(publishes(f, b, derived | {rl}, rl) for b in before):
+                    continue
+                after = set()
+                for s in f.succs()[b1]:
+                    after |= f.reachable_blocks(s)
+                for b2 in sorted(after):
+                    t2 = f.blocks[b2]['t']
+                    if t2['t'] != 'call':
+                        continue
+                    n2 = callee_name(t2)
+                    if n2 is None or n2 not in mg:
+                        continue
+                    # the handle is an argument of the collecting call, or read after it
+                    if reads[b2][1] & derived:
+                        hit = (b1, b2, b2)
+                        break
+                    after2 = set()
+                    for s in f.succs()[b2]:
+                        after2 |= f.reachable_blocks(s)
+                    for b3 in sorted(after2):
+                        sr, tr = reads[b3]
+                        if (sr | tr) & derived:
+                            hit = (b1, b2, b3)
+                            break
+                    if hit:
+                        break
+                if hit:
+                    break
+            if hit:
+                b1, b2, b3 = hit
+                detail = ('root dropped at %s, then %s may collect at %s, then the unrooted handle is used at %s'
+                          % (f.loc(f.blocks[b1]['t'].get('sp')), callee_name(f.blocks[b2]['t']),
+                             f.loc(f.blocks[b2]['t'].get('sp')), f.loc(f.blocks[b3]['t'].get('sp'))))
+                if key in exc:
+                    used.add(key)
+                    r.ok(key + ' (excepted: %s)' % exc[key]['why'], sample=False)
+                else:
+                    r.bad(key, detail, f.loc(f.blocks[ab]['t'].get('sp')))
+            else:
+                r.ok(key)
+    for k in exc:
+        if k not in used:
+            r.note('exception not needed on this tree: ' + k)
+    r3n(rep, w, mg)
+
+
+def publishes(f, bi, locals_, root_local):
+    """block bi passes one of the locals to a non-wrapper call, moves the root, or stores it through a
+    projected place"""
+    from facts import is_wrapper
+    b = f.blocks[bi]
+    for s in b['s']:
+        d = s.get('d')
+        r = s.get('r')
+        if not d or not r:
+            continue
+        if d.get('p') and (rvalue_reads(r) & locals_):
+            return True
+        # moving the root itself into another local / aggregate
+        if r.get('rv') == 'use' and 'm' in r['o'] and r['o']['m']['l'] == root_local and not r['o']['m'].get('p'):
+            return True
+        if r.get('rv') == 'agg':
+            for o in r['ops']:
+                if 'm' in o and o['m']['l'] == root_local:
+                    return True
+    t = b['t']
+    if t['t'] == 'call':
+        name = callee_name(t)
+        args = set()
+        for a in t['args']:
+            pl = op_place(a)
+            if pl is not None:
+                if 'm' in a and pl['l'] == root_local and not pl.get('p'):
+                    return True
+                args.add(pl['l'])
+        if args & (locals_ - {root_local}) and not is_wrapper(name):
+            return True
+    return False
+
+
+def r3n(rep, w, mg):
+    r = rep.rule('R3n', 'a native\'s Ok value is written to the stack before anything can collect', floor=1)
+    f = w.require_fn('yarel::vm::Vm::call_native', 'C01')
+    ind = [bi for bi, t in f.calls() if 'ind' in t['f']]
+    if len(ind) != 1:
+        raise Broken('C01', 'anchor', 'call_native: expected exactly one indirect (native) call, found %d' % len(ind))
+    nb = ind[0]
+    res_local = f.blocks[nb]['t']['dst']['l']
+    org = origins(f)
+    pokes = []
+    for bi, t in f.calls():
+        if callee_name(t) in ('yarel::vm::Vm::poke', 'yarel::vm::Vm::push') and len(t['args']) >= 2:
+            pl = op_place(t['args'][-1])
+            if pl is None:
+                continue
+            for q in org.get(pl['l'], ()):
+                if q[0] == ('local', res_local) or (q[0][0] == 'call' and q[0][1] == nb):
+                    if 'as Ok' in q:
+                        pokes.append(bi)
+    if not pokes:
+        r.bad('call_native', 'the Ok value of a native is never written to the stack (anchor lost?)', f.loc())
+        return
+    bad = []
+    for pb in pokes:
+        between = f.reachable_blocks(f.succs()[nb][0]) & {b for b in f.normal_blocks() if pb in f.reachable_blocks(b)}
+        for b in between:
+            if b == pb:
+                continue
+            t = f.blocks[b]['t']
+            if t['t'] == 'call' and (callee_name(t) in mg):
+                bad.append((b, callee_name(t)))
+    r.check(not bad, 'call_native: native result -> poke',
+            'may-collect call(s) %s between the native call and the store of its unrooted result' % bad, f.loc())
+
+
+IMMORTAL = {'yarel::object::ObjString'}
 
 
 def r5(rep, w):
-    pass
+    """popped operands"""
+    c = w.yarel
+    mg = c01.may_gc(w)
+    exc = {e['key']: e for e in c01.table('c01_r5_ok.json')}
+    r = rep.rule('R5', 'a value popped from the operand stack is not passed to / live across a may-collect call', floor=25)
+    used = set()
+    POP = 'yarel::vm::Vm::pop'
+    for f in sorted(c.fns.values(), key=lambda x: x.path):
+        pops = [(bi, t['dst']['l']) for bi, t in f.calls() if callee_name(t) == POP and not t['dst'].get('p')]
+        if not pops:
+            continue
+        org = origins(f)
+        reads = {bi: block_reads(f, bi) for bi in f.normal_blocks()}
+        for (pb, pl) in pops:
+            root_key = ('call', pb, POP)
+            derived = {pl}
+            for l, paths in org.items():
+                for q in paths:
+                    if q[0] == root_key and managed_not_immortal(c, f.local_ty(l)):
+                        # the value itself or a payload extracted from it (variant projection / try_as_*)
+                        if all(tok.startswith('as ') or tok in ('0', '*') or tok.startswith('@') for tok in q[1:]) \
+                                and not any(tok in ('@deref', '@borrow', '@borrow_mut') for tok in q[1:]):
+                            derived.add(l)
+            derived = {l for l in derived if managed_not_immortal(c, f.local_ty(l))}
+            key = '%s / pop@%s' % (f.path, ordinal(pops, pb))
+            if not derived:
+                r.ok(key + ' (popped value is not a collectable handle)', sample=False)
+                continue
+            after = set()
+            for s in f.succs()[pb]:
+                after |= f.reachable_blocks(s)
+            hit = None
+            for b2 in sorted(after):
+                t2 = f.blocks[b2]['t']
+                if t2['t'] != 'call':
+                    continue
+                n2 = callee_name(t2)
+                if n2 is None or n2 not in mg:
+                    continue
+                if reads[b2][1] & derived:
+                    for i, a in enumerate(t2['args']):
+                        pla = op_place(a)
+                        if pla is not None and pla['l'] in derived and param_live_across_gc(w, mg, n2, i):
+                            hit = (b2, b2)
+                    if hit:
+                        break
+                after2 = set()
+                for s in f.succs()[b2]:
+                    after2 |= f.reachable_blocks(s)
+                for b3 in sorted(after2):
+                    sr, tr = reads[b3]
+                    if (sr | tr) & derived:
+                        hit = (b2, b3)
+                        break
+                if hit:
+                    break
+            if hit:
+                b2, b3 = hit
+                detail = ('value popped at %s is unrooted; %s may collect at %s and the value is %s'
+                          % (f.loc(f.blocks[pb]['t'].get('sp')), callee_name(f.blocks[b2]['t']), f.loc(f.blocks[b2]['t'].get('sp')),
+                             'passed to it' if b2 == b3 else 'used afterwards at ' + f.loc(f.blocks[b3]['t'].get('sp'))))
+                if key in exc:
+                    used.add(key)
+                    r.ok(key + ' (excepted: %s)' % exc[key]['why'], sample=False)
+                else:
+                    r.bad(key, detail, f.loc(f.blocks[pb]['t'].get('sp')))
+            else:
+                r.ok(key)
+    for k in exc:
+        if k not in used:
+            r.note('exception not needed on this tree: ' + k)
+    r5b(rep, w, mg)
+
+
+_plag_cache = {}
+
+
+def param_live_across_gc(w, mg, gpath, argi, depth=0):
+    """in workspace function gpath, is parameter #argi (0-based; the value itself or a handle derived
+    from it) read at/after a may-collect call, or handed to a callee for which that holds?  Unknown
+    callee bodies (external / indirect) count as 'yes'."""
+    key = (gpath, argi)
+    if key in _plag_cache:
+        return _plag_cache[key]
+    g = w.fns.get(gpath)
+    if g is None or depth > 4:
+        return True
+    _plag_cache[key] = False      # recursion guard (optimistic for cycles)
+    org = origins(g)
+    root_key = ('arg', argi + 1)
+    derived = {argi + 1}
+    for l, paths in org.items():
+        for q in paths:
+            if q[0] == root_key and all(tok.startswith('as ') or tok in ('0', '*') or tok.startswith('@') for tok in q[1:]) \
+                    and not any(tok in ('@deref', '@borrow', '@borrow_mut') for tok in q[1:]):
+                if managed_not_immortal(g.crate, g.local_ty(l)):
+                    derived.add(l)
+    reads = {bi: block_reads(g, bi) for bi in g.normal_blocks()}
+    res = False
+    for b2 in sorted(g.normal_blocks()):
+        t2 = g.blocks[b2]['t']
+        if t2['t'] != 'call':
+            continue
+        n2 = callee_name(t2)
+        if n2 is None or n2 not in mg:
+            continue
+        if reads[b2][1] & derived:
+            # passed on: look into that callee
+            for i, a in enumerate(t2['args']):
+                pl = op_place(a)
+                if pl is not None and pl['l'] in derived:
+                    if param_live_across_gc(w, mg, n2, i, depth + 1):
+                        res = True
+        after2 = set()
+        for s in g.succs()[b2]:
+            after2 |= g.reachable_blocks(s)
+        for b3 in after2:
+            sr, tr = reads[b3]
+            if (sr | tr) & derived:
+                res = True
+        if res:
+            break
+    _plag_cache[key] = res
+    return res
+
+
+def ordinal(pops, pb):
+    return sorted(b for b, _ in pops).index(pb)
+
+
+def managed_not_immortal(c, tid):
+    for _, t in c.ty_walk(tid):
+        if t['k'] == 'adt' and t['n'] == c01.VALUE:
+            return True
+        if t['k'] == 'adt' and t['n'] == c01.GC:
+            inner = c.ty(t['a'][0])
+            if inner['k'] == 'adt' and inner['n'] in IMMORTAL:
+                continue
+            return True
+        if t['k'] == 'adt' and t['n'] in (c01.ROOT, c01.UROOT):
+            return False
+    return False
+
+
+def r5b(rep, w, mg):
+    """operands copied out of the stack must still be on the stack when the container that will hold them
+    is allocated: in a function that both reads stack slots into a local collection and lowers the stack
+    (discard/truncate), no may-collect call may lie after the lowering while the collection is still used."""
+    c = w.yarel
+    r = rep.rule('R5b', 'operands copied off the stack are not discarded before the allocation that adopts them', floor=2)
+    LOWER = {'yarel::vm::Vm::discard', 'yarel::stack::Stack::<T, N>::truncate', 'yarel::stack::Stack::<T, N>::clear'}
+    for f in sorted(c.fns.values(), key=lambda x: x.path):
+        if not f.path.startswith('yarel::vm::Vm::'):
+            continue
+        lowers = [bi for bi, t in f.calls() if callee_name(t) in LOWER]
+        if not lowers:
+            continue
+        # local collections of values built from the stack: Vec<Value> locals
+        vecs = set()
+        for l, d in enumerate(f.locals):
+            t = c.ty(d['t'])
+            if t['k'] == 'adt' and t['n'] == 'std::vec::Vec' and c.ty(t['a'][0]).get('n') == c01.VALUE:
+                vecs.add(l)
+        if not vecs:
+            continue
+        reads = {bi: block_reads(f, bi) for bi in f.normal_blocks()}
+        org = origins(f)
+        bad = None
+        for lb in lowers:
+            after = set()
+            for s in f.succs()[lb]:
+                after |= f.reachable_blocks(s)
+            for b2 in sorted(after):
+                t2 = f.blocks[b2]['t']
+                if t2['t'] == 'call' and callee_name(t2) in mg:
+                    # a Vec<Value> created before the lowering is passed to / used after the collecting call
+                    live = set()
+                    if reads[b2][1] & vecs:
+                        live = reads[b2][1] & vecs
+                    else:
+                        after2 = set()
+                        for s in f.succs()[b2]:
+                            after2 |= f.reachable_blocks(s)
+                        for b3 in after2:
+                            sr, tr = reads[b3]
+                            live |= (sr | tr) & vecs
+                    # only vecs whose contents were produced before the lowering
+                    filled_before = set()
+                    can_reach_lb = {b0 for b0 in f.normal_blocks() if b0 != lb and lb in f.reachable_blocks(b0)}
+                    for l in live:
+                        for q in org.get(l, ()):
+                            if q[0][0] == 'call' and q[0][1] in can_reach_lb:
+                                filled_before.add(l)
+                    if filled_before:
+                        bad = (lb, b2, sorted(filled_before))
+                        break
+            if bad:
+                break
+        if bad:
+            lb, b2, ls = bad
+            r.bad(f.path, 'values copied from the stack into %s are discarded from the stack at %s before %s (may collect) at %s'
+                  % ([f.local_name(l) for l in ls], f.loc(f.blocks[lb]['t'].get('sp')), callee_name(f.blocks[b2]['t']),
+                     f.loc(f.blocks[b2]['t'].get('sp'))), f.loc())
+        else:
+            r.ok(f.path)
